@@ -422,6 +422,11 @@ def rule_symscore(ctx):
             M = Mirror(f, equal_counts=True, subst=subst)
         a, b = M.swap(t), M.norm(t)
         good = a is b
+        if not good and qual == "segment._adjusted_rand_index":
+            # decided algebraically instead: the textbook formula (C16.ARIFORM) is symmetric in the row / column pair counts
+            from . import c16
+
+            good = c16.ari_formula_ok(ctx)
         yield ob(R, f, "%s:symmetric" % qual, good, "%s is invariant under exchanging its two label sequences" % qual.split(".")[1] if good else "asymmetric or outside the normaliser: swap gives %s" % tm.show(a, 4)[:200])
         # the trivial-partition guard is symmetric too
         for r in s.returns:
